@@ -303,4 +303,161 @@ theorem run_inv {hash : List Nat → Nat} {w d cmax : Nat} (hw : 0 < w) (hd : 0 
   rw [run_eq hw] at hr
   exact runFrom_inv hw hd h _ s [] (inv_fresh hash w d cmax) hr
 
+
+/-! ### histories: prefixes and stream equations -/
+
+theorem runFrom_append (hash : List Nat → Nat) (w d cmax : Nat) (a b : List Op) (s : St) :
+    runFrom hash w d cmax (a ++ b) s = (runFrom hash w d cmax a s).bind (runFrom hash w d cmax b) := by
+  induction a generalizing s with
+  | nil => simp [runFrom]
+  | cons op a ih =>
+    simp only [List.cons_append, runFrom]
+    cases step hash w d cmax op s with
+    | none => rfl
+    | some s1 => exact ih s1
+
+theorem run_append (hash : List Nat → Nat) (w d cmax : Nat) (a b : List Op) :
+    run hash w d cmax (a ++ b) = (run hash w d cmax a).bind (runFrom hash w d cmax b) := by
+  unfold run
+  cases new w d cmax with
+  | none => rfl
+  | some s0 => exact runFrom_append hash w d cmax a b s0
+
+theorem streamFrom_append (a b : List Op) (acc : List (Nat × Nat)) :
+    streamFrom (a ++ b) acc = streamFrom b (streamFrom a acc) := by
+  induction a generalizing acc with
+  | nil => simp [streamFrom]
+  | cons op a ih => simp only [List.cons_append, streamFrom]; exact ih _
+
+theorem stream_nil : stream [] = [] := by simp [stream, streamFrom]
+theorem stream_snoc (h : List Op) (op : Op) : stream (h ++ [op]) = streamStep op (stream h) := by
+  simp [stream, streamFrom_append, streamFrom]
+theorem stream_snoc_addN (h : List Op) (x n : Nat) : stream (h ++ [.addN x n]) = stream h ++ [(x, n)] := by
+  rw [stream_snoc, streamStep]
+theorem stream_snoc_merge (h o : List Op) : stream (h ++ [.merge o]) = stream h ++ stream o := by
+  rw [stream_snoc, streamStep]; rfl
+theorem stream_snoc_clear (h : List Op) : stream (h ++ [.clear]) = [] := by
+  rw [stream_snoc, streamStep]
+
+/-! ### consequences of the invariant -/
+
+/-- A state that satisfies the structural part of the invariant. -/
+def Valid (s : St) : Prop := 0 < s.w ∧ 0 < s.d ∧ s.table.size = s.w * s.d
+
+theorem Inv.valid {hash : List Nat → Nat} {w d cmax : Nat} {s : St} {str : List (Nat × Nat)}
+    (hw : 0 < w) (hd : 0 < d) (h : Inv hash w d cmax s str) : Valid s :=
+  ⟨by rw [h.hw]; exact hw, by rw [h.hd]; exact hd, by rw [h.hw, h.hd]; exact h.hsize⟩
+
+theorem query_eq {hash : List Nat → Nat} {s : St} (hv : Valid s) (x : Nat) :
+    query hash s x = queryCols s (colsOf hash s.w s.d x) := by
+  unfold query; rw [(colsOf_wf hash hv.1 s.d x).1]
+
+theorem addN_eq {hash : List Nat → Nat} {s : St} (hv : Valid s) (x n : Nat) :
+    addN hash s x n = addCols s (colsOf hash s.w s.d x) n := by
+  unfold addN; rw [(colsOf_wf hash hv.1 s.d x).1]
+
+/-- `query_point` succeeds on a valid state and returns the minimum over the rows. -/
+theorem query_spec {hash : List Nat → Nat} {s : St} (hv : Valid s) (x : Nat) :
+    ∃ v, query hash s x = some v ∧
+      (∀ r (h : r < (colsOf hash s.w s.d x).length), v ≤ cell s.table (r * s.w + (colsOf hash s.w s.d x)[r])) ∧
+      ∃ r, ∃ h : r < (colsOf hash s.w s.d x).length, v = cell s.table (r * s.w + (colsOf hash s.w s.d x)[r]) := by
+  obtain ⟨v, hq, hm⟩ := queryCols_spec hv.2.2 (colsOf_wf hash hv.1 s.d x).2 hv.2.1
+  exact ⟨v, by rw [query_eq hv]; exact hq, isMin_rowVals_zero.mp hm⟩
+
+theorem query_bounds {hash : List Nat → Nat} {w d cmax : Nat} {s : St} {str : List (Nat × Nat)}
+    (hw : 0 < w) (hd : 0 < d) (h : Inv hash w d cmax s str) (x : Nat) :
+    ∃ v, query hash s x = some v ∧ weightOf x str ≤ v ∧ v ≤ total str := by
+  have hv := h.valid hw hd
+  have e1 := h.hw
+  have e2 := h.hd
+  subst e1 e2
+  obtain ⟨v, hq, hlb, r, hr, hat⟩ := query_spec (hash := hash) hv x
+  have hlt := (colsOf_wf hash hv.1 s.d x).2.2 _ (List.getElem_mem hr)
+  rw [h.hcell _ _ hlt] at hat
+  refine ⟨v, hq, ?_, ?_⟩
+  · rw [hat]
+    apply weightOf_le_cellSum
+    exact List.getElem?_eq_getElem hr
+  · rw [hat]; exact cellSum_le_total ..
+
+/-- the value returned by `add_n` is `query_point` in the new state -/
+theorem addN_returns_query {hash : List Nat → Nat} {s s' : St} (hv : Valid s) {x n r : Nat}
+    (ha : addN hash s x n = some (s', r)) : query hash s' x = some r := by
+  obtain ⟨_, hwf⟩ := colsOf_wf hash hv.1 s.d x
+  rw [addN_eq hv] at ha
+  obtain ⟨e1, e2, e3, e4, e5, v, hmin, rfl⟩ := (addCols_spec hv.2.2 hwf hv.2.1 n).2 s' r ha
+  have hv' : Valid s' := ⟨by rw [e1]; exact hv.1, by rw [e2]; exact hv.2.1, by rw [e1, e2, e4]; exact hv.2.2⟩
+  rw [query_eq hv', e1, e2]
+  have hwf' : WFCols s'.w s'.d (colsOf hash s.w s.d x) := by rw [e1, e2]; exact hwf
+  obtain ⟨v', hq, hmin'⟩ := queryCols_spec hv'.2.2 hwf' hv'.2.1
+  rw [hq]
+  have hrv : rowVals s'.w s'.table 0 (colsOf hash s.w s.d x) =
+      (rowVals s.w s.table 0 (colsOf hash s.w s.d x)).map (· + n) := by
+    rw [e1]
+    apply rowVals_congr
+    intro r hr
+    rw [Nat.zero_add, e5 r _ (hwf.2 _ (List.getElem_mem hr)), List.getElem?_eq_getElem hr]
+    simp
+  rw [hrv] at hmin'
+  rw [hmin'.unique (isMin_map_add n hmin)]
+
+/-- `add_n` panics iff one of the visited counters would exceed `cmax`. -/
+theorem addN_eq_none_iff {hash : List Nat → Nat} {s : St} (hv : Valid s) (x n : Nat) :
+    addN hash s x n = none ↔
+      ∃ r, ∃ h : r < (colsOf hash s.w s.d x).length,
+        s.cmax < cell s.table (r * s.w + (colsOf hash s.w s.d x)[r]) + n := by
+  rw [addN_eq hv, (addCols_spec hv.2.2 (colsOf_wf hash hv.1 s.d x).2 hv.2.1 n).1]
+  constructor
+  · rintro ⟨v, hv, hlt⟩
+    obtain ⟨r, hr, rfl⟩ := mem_rowVals.mp hv
+    exact ⟨r, hr, by simpa using hlt⟩
+  · rintro ⟨r, hr, hlt⟩
+    exact ⟨_, mem_rowVals.mpr ⟨r, hr, rfl⟩, by simpa using hlt⟩
+
+
+theorem colsOf_eq {hash : List Nat → Nat} {w d x : Nat} {cols : List Nat}
+    (h : HashIter.positions hash w d x = some cols) : colsOf hash w d x = cols := by
+  simp [colsOf, h]
+
+/-- row/column arithmetic of a column list: in range, and distinct rows are distinct cells -/
+theorem wfcols_index {w d : Nat} {cols : List Nat} (h : WFCols w d cols) :
+    (∀ i (hi : i < cols.length), cols[i] < w ∧ i * w + cols[i] < w * d) ∧
+    (∀ i i' (hi : i < cols.length) (hi' : i' < cols.length),
+      i * w + cols[i] = i' * w + cols[i'] → i = i') := by
+  refine ⟨?_, ?_⟩
+  · intro i hi
+    have hc := h.2 _ (List.getElem_mem hi)
+    exact ⟨hc, rowcol_lt (by rw [← h.1]; exact hi) hc⟩
+  · intro i i' hi hi' e
+    exact (rowcol_inj (h.2 _ (List.getElem_mem hi)) (h.2 _ (List.getElem_mem hi')) e).1
+
+/-- every row of a reachable table sums to the total weight -/
+theorem inv_row_sum {hash : List Nat → Nat} {w d cmax : Nat} {s : St} {str : List (Nat × Nat)}
+    (hw : 0 < w) (h : Inv hash w d cmax s str) {r : Nat} (hr : r < d) :
+    ((List.range w).map fun c => cell s.table (r * w + c)).sum = total str := by
+  rw [← rowSum_cellSum hash hw hr str]
+  congr 1
+  apply List.map_congr_left
+  intro c hc
+  exact h.hcell r c (List.mem_range.mp hc)
+
+/-- the cell of `x` in each row is at least the weight of `x` -/
+theorem inv_cell_ge {hash : List Nat → Nat} {w d cmax : Nat} {s : St} {str : List (Nat × Nat)}
+    (hw : 0 < w) (h : Inv hash w d cmax s str) (x : Nat) {r : Nat}
+    (hr : r < (colsOf hash w d x).length) :
+    weightOf x str ≤ cell s.table (r * w + (colsOf hash w d x)[r]) := by
+  rw [h.hcell _ _ ((colsOf_wf hash hw d x).2.2 _ (List.getElem_mem hr))]
+  exact weightOf_le_cellSum _ _ _ _ _ _ _ (List.getElem?_eq_getElem hr)
+
+theorem query_single {hash : List Nat → Nat} {w d cmax : Nat} {s : St} {str : List (Nat × Nat)}
+    (hw : 0 < w) (hd : 0 < d) (h : Inv hash w d cmax s str) {x : Nat} (hx : ∀ e ∈ str, e.1 = x) :
+    query hash s x = some (weightOf x str) := by
+  obtain ⟨v, hq, h1, h2⟩ := query_bounds hw hd h x
+  rw [← weightOf_eq_total hx] at h2
+  rw [hq, Nat.le_antisymm h2 h1]
+
+theorem inv_table_le {hash : List Nat → Nat} {w d cmax : Nat} {s : St} {str : List (Nat × Nat)}
+    (h : Inv hash w d cmax s str) (j : Nat) (hj : j < s.table.size) : s.table[j] ≤ cmax := by
+  rw [← cell_of_lt hj]; exact h.hle j
+
 end Pds.Cms
